@@ -211,6 +211,13 @@ impl Out {
             ),
         }
     }
+    pub fn append(path: &str) -> Self {
+        Out {
+            w: std::io::BufWriter::new(
+                std::fs::OpenOptions::new().append(true).create(true).open(path).unwrap_or_else(|e| panic!("append {}: {}", path, e)),
+            ),
+        }
+    }
     pub fn line(&mut self, v: &Value) {
         writeln!(self.w, "{}", v).unwrap();
     }
